@@ -151,6 +151,19 @@ CHECKS = {
         note="Trusted: TLC, renderer/source map, JSON-RPC client, client-side edit application. @reference names are not in this family yet.",
         technique="binding relation model-checked in TLA+ (TLC) as oracle + replay of prepareRename/rename on the real oal-lsp with compilation of the edited sources",
     ),
+    "C01": dict(
+        design_ref="DESIGN.md 3.6 (Kinds.tla, EvalAbs.tla), 4 (C01)",
+        text="Kinds.tla (tag(), constrain(), a reference unifier, type_check, cycles_check, cross-module tag export on the abstract syntax) "
+             "and EvalAbs.tla (an abstract interpreter of eval.rs over value variants in which every cast_* is an explicit guard) predict, "
+             "for every member of the PosShape and FnPos families (22 consuming positions x 25 shapes x 6 indirections; 18 parameter "
+             "positions x 25 shapes x {local, imported function}), whether the program is rejected, evaluates, or crashes at which "
+             "cast with which variant; TLC evaluates Sound = accepted => no crash on each. Every member is rendered and run through "
+             "the real load/compile/eval/emit: the predicted outcome class and crash site must be the real ones (4200 members agree "
+             "exactly, including the 150 crashes the model predicts), and any panic/abort/hang of an accepted program is a violation "
+             "of the property, matched against KNOWN_FINDINGS.json by (cast site, variant, context).",
+        note="Trusted: TLC, renderer. Four genuine defects are recorded as known findings (headers with a join/sum of objects, ranges as a transfer domain, imported functions not re-checked per application); each needs a language-level decision rather than a local patch.",
+        technique="TLA+ reference kind checker + abstract interpreter of the evaluator with casts as guards (TLC over position x shape x indirection families) + exact spec->impl replay of outcome class and crash site",
+    ),
 }
 
 PENDING_REASON = "check not built yet (work in progress; see DESIGN.md section 8 for the build order)"
